@@ -12,6 +12,7 @@ use interner::Interner;
 use itertools::Itertools;
 use num_traits::ToBytes;
 use rustc_hash::{FxHashMap, FxHashSet};
+use internment::Intern;
 use std::{
     alloc::Layout,
     collections::VecDeque,
@@ -28,6 +29,72 @@ use crate::{
 };
 
 use super::Compiler;
+
+/// Padding and the bytes behind the active variant of a sum type are not part of a value.
+/// After a comptime block ran they hold whatever the JIT'd code left there (old stack contents,
+/// addresses), which differs from process to process, so they are zeroed.
+fn zero_undefined_bytes(bytes: &mut [u8], ty: Intern<Ty>) {
+    let size = ty.size() as usize;
+
+    match ty.as_ref() {
+        Ty::Distinct { sub_ty, .. } | Ty::EnumVariant { sub_ty, .. } => {
+            zero_undefined_bytes(bytes, *sub_ty)
+        }
+        Ty::AnonArray { size: len, sub_ty } | Ty::ConcreteArray { size: len, sub_ty } => {
+            let item_size = sub_ty.size() as usize;
+            let item_stride = sub_ty.stride() as usize;
+
+            for idx in 0..*len as usize {
+                let start = idx * item_stride;
+                zero_undefined_bytes(&mut bytes[start..start + item_size], *sub_ty);
+
+                let next = ((idx + 1) * item_stride).min(size);
+                bytes[start + item_size..next].fill(0);
+            }
+        }
+        Ty::AnonStruct { members } | Ty::ConcreteStruct { members, .. } => {
+            let layout = ty.struct_layout().unwrap();
+
+            let mut prev_end = 0;
+            for (member, offset) in members.iter().zip(layout.offsets()) {
+                let start = *offset as usize;
+                let end = start + member.ty.size() as usize;
+
+                bytes[prev_end..start].fill(0);
+                zero_undefined_bytes(&mut bytes[start..end], member.ty);
+
+                prev_end = end;
+            }
+            bytes[prev_end..size].fill(0);
+        }
+        Ty::Enum { .. } | Ty::Optional { .. } | Ty::ErrorUnion { .. } if ty.is_tagged_union() => {
+            let tag_offset = ty.enum_layout().unwrap().discriminant_offset() as usize;
+            let tag = bytes[tag_offset] as u64;
+
+            let active = match ty.as_ref() {
+                Ty::Optional { sub_ty } => (tag == 1).then_some(*sub_ty),
+                Ty::ErrorUnion {
+                    error_ty,
+                    payload_ty,
+                } => Some(if tag == 1 { *payload_ty } else { *error_ty }),
+                Ty::Enum { variants, .. } => variants.iter().copied().find(|variant| {
+                    matches!(variant.as_ref(), Ty::EnumVariant { discriminant, .. } if *discriminant == tag)
+                }),
+                _ => unreachable!(),
+            };
+
+            let active_size = active.map_or(0, |active| {
+                let active_size = active.size() as usize;
+                zero_undefined_bytes(&mut bytes[..active_size], active);
+                active_size
+            });
+
+            bytes[active_size..tag_offset].fill(0);
+            bytes[tag_offset + 1..size].fill(0);
+        }
+        _ => {}
+    }
+}
 
 pub(crate) trait ComptimeBytes {
     fn into_bytes(
@@ -302,12 +369,15 @@ pub fn eval_comptime_blocks<'a>(
 
                 comptime(raw);
 
-                let bytes = unsafe {
+                let mut bytes = unsafe {
                     let slice = std::ptr::slice_from_raw_parts(raw, return_ty.size() as usize)
                         as *mut [u8];
 
                     Box::from_raw(slice)
                 };
+
+                // the bytes go into the object file. builds have to be reproducible
+                zero_undefined_bytes(&mut bytes, return_ty);
 
                 results.insert(ctc, ComptimeResult::Data(bytes));
             }
